@@ -30,7 +30,11 @@ impl ColumnIndex {
     }
 
     pub fn from_bytes(data: &[u8]) -> StorageResult<Self> {
-        // TODO(chi): error handling
+        if data.len() < INDEX_FOOTER_SIZE {
+            return Err(TracedStorageError::decode(
+                "failed to decode column index: file is shorter than its footer",
+            ));
+        }
         let mut index_data = &data[..data.len() - INDEX_FOOTER_SIZE];
         let mut footer = &data[data.len() - INDEX_FOOTER_SIZE..];
         if footer.get_u32() != SECONDARY_INDEX_MAGIC {
@@ -44,7 +48,8 @@ impl ColumnIndex {
         let checksum = footer.get_u64();
         verify_checksum(checksum_type, index_data, checksum)?;
 
-        let mut indexes = Vec::with_capacity(length);
+        // the block count is not covered by the checksum: do not allocate by it
+        let mut indexes = Vec::with_capacity(length.min(index_data.len()));
         for _ in 0..length {
             let index = BlockIndex::decode_length_delimited(&mut index_data)?;
             indexes.push(index);
